@@ -51,6 +51,7 @@ def mailbox_programs(tier):
     # timers (C10 / C05 / C07 / C06)
     add('timers_stop', None, {'c1': [('stop', A)]}, started_actions=(('interval', 'tick', 2),), max_clock=5, K=2, max_steps=24)
     add('timers_mixed_drop', None, {'c1': [('drop', A)]}, started_actions=(('interval', 'tick', 2), ('delayed_send', 'ds', 3)), max_clock=6, K=2, max_steps=24)
+    add('timers_weak_upgrade_after_drop', None, {'c1': [('ping', A), ('downgrade', A, 'w'), ('mk_weak_sender', A, 'ws'), ('drop', A), ('upgrade', 'w'), ('upgrade_sender', 'ws')]}, started_actions=(('interval', 'tick', 2),), max_clock=4, K=2, max_steps=24)
     add('timers_interval_with_bounded', 1, {'c1': [('send', A, 'a1'), ('stop', A)]}, 1, started_actions=(('interval_with', 'tw', 1),), max_clock=2, K=1, max_steps=20)
     add('timers_delayed_exec_kill', None, {'c1': [('ping', A)]}, started_actions=(('delayed_exec', 'de', 2), ('interval', 'tick', 1)), max_clock=3, K=1, faults=1, max_steps=20)
     add('timers_restart', None, {'c1': [('restart', A), ('ping', A)]}, started_actions=(('interval', 'tick', 2),), max_clock=4, K=2, max_steps=20)
@@ -136,6 +137,37 @@ def evaluate(tr, status, cap, scripts, spec=None):
 PIDS = ('C01', 'C02', 'C04', 'C05', 'C06', 'C07', 'C08', 'C09', 'C10', 'C12', 'C14', 'C15', 'C16', 'C17')
 
 
+def make_program(functions, enums, repo, spec, spawner=None):
+    """the Sys and the Program object of one program spec"""
+    name, cap, scripts, hp, pre = spec['name'], spec['cap'], spec['scripts'], spec['hp'], spec['pre']
+    sy = Sys(functions, enums, repo)
+    if spawner:
+        sy.spawner = spawner
+    sy.strategy = spec['strategy']
+    sy.user_script['started_actions'] = spec['started_actions']
+    for k, v in (spec['started'] or {}).items():
+        sy.user_script[('started', k)] = v
+    if spec['broker']:
+        for i in spec['broker']['subscribers']:
+            sy.user_script[('started_actions', f'ctx{i-1}')] = (('subscribe',),)
+        p = BrokerProgram(sy, cap, scripts, handler_pending=hp, max_steps=spec['max_steps'], pre=pre, nchildren=spec['broker']['nactors'])
+    elif spec['children']:
+        sy.user_script[('started_actions', 'ctx0')] = tuple((how, h) + (('keep',) if kept else ()) for (h, how, kept) in spec['children'])
+        p = ChildrenProgram(sy, cap, scripts, handler_pending=hp, max_steps=spec['max_steps'], pre=pre, nchildren=len(spec['children']), children_spec=spec['children'])
+    else:
+        cls = RegistryProgram if spec['registry'] else MailboxProgram
+        p = cls(sy, cap, scripts, handler_pending=hp, max_steps=spec['max_steps'], pre=pre)
+    p.faults = spec['faults']
+    if spec['mt']:
+        from scen_sys import mt_yield_hook
+        sy.eng.yield_hook = mt_yield_hook
+    p.owning = spec['owning']
+    if spec['max_clock'] is not None:
+        p.max_clock = spec['max_clock']
+    p.max_preemptions = spec['K']
+    return sy, p
+
+
 def run(functions, enums, repo, tier, max_steps=60, seed=0, validate=None):
     results = {k: [] for k in PIDS}
     stats = {'paths': 0, 'solver_calls': 0, 'solver_s': 0.0, 'steps': 0, 'bound': 0, 'truncated': 0, 'programs': [],
@@ -152,29 +184,7 @@ def run(functions, enums, repo, tier, max_steps=60, seed=0, validate=None):
     stats['native_confirmations'] = {}
     for spec in mailbox_programs(tier):
         name, cap, scripts, hp, pre = spec['name'], spec['cap'], spec['scripts'], spec['hp'], spec['pre']
-        sy = Sys(functions, enums, repo)
-        sy.strategy = spec['strategy']
-        sy.user_script['started_actions'] = spec['started_actions']
-        for k, v in (spec['started'] or {}).items():
-            sy.user_script[('started', k)] = v
-        if spec['broker']:
-            for i in spec['broker']['subscribers']:
-                sy.user_script[('started_actions', f'ctx{i-1}')] = (('subscribe',),)
-            p = BrokerProgram(sy, cap, scripts, handler_pending=hp, max_steps=spec['max_steps'], pre=pre, nchildren=spec['broker']['nactors'])
-        elif spec['children']:
-            sy.user_script[('started_actions', 'ctx0')] = tuple((how, h) + (('keep',) if kept else ()) for (h, how, kept) in spec['children'])
-            p = ChildrenProgram(sy, cap, scripts, handler_pending=hp, max_steps=spec['max_steps'], pre=pre, nchildren=len(spec['children']), children_spec=spec['children'])
-        else:
-            cls = RegistryProgram if spec['registry'] else MailboxProgram
-            p = cls(sy, cap, scripts, handler_pending=hp, max_steps=spec['max_steps'], pre=pre)
-        p.faults = spec['faults']
-        if spec['mt']:
-            from scen_sys import mt_yield_hook
-            sy.eng.yield_hook = mt_yield_hook
-        p.owning = spec['owning']
-        if spec['max_clock'] is not None:
-            p.max_clock = spec['max_clock']
-        p.max_preemptions = spec['K']
+        sy, p = make_program(functions, enums, repo, spec)
         native_ok = not spec['broker'] and not spec['children'] and not spec['registry'] and not spec['owning'] and not spec['started_actions'] and not spec['faults'] and not spec['started'] and \
             not any(str(op[2]).startswith('panic') for sc in scripts.values() for op in sc if len(op) > 2)
         st = p.setup()
